@@ -5,7 +5,10 @@
 mod common;
 mod hc;
 mod c01;
+mod c02;
 mod c06;
+mod c08;
+mod c09;
 mod expect;
 mod sgen;
 mod model;
@@ -63,7 +66,10 @@ fn usage() -> ! {
 fn run(id: &str, tier: Tier) -> i32 {
     match id {
         "C01" => c01::run(tier),
+        "C02" => c02::run(tier),
         "C06" => c06::run(tier),
+        "C08" => c08::run(tier),
+        "C09" => c09::run(tier),
         "C11" => c11::run(tier),
         "C12" => c12::run(tier),
         "C13" => c13::run(tier),
@@ -83,7 +89,10 @@ fn replay(file: &str) -> i32 {
     let v: serde_json::Value = serde_json::from_str(&text).expect("replay file is JSON");
     match v["property"].as_str().unwrap_or("") {
         "C01" => c01::replay(&v["case"]),
+        "C02" => c02::replay(&v["case"]),
         "C06" => c06::replay(&v["case"]),
+        "C08" => c08::replay(&v["case"]),
+        "C09" => c09::replay(&v["case"]),
         "C11" => c11::replay(&v["case"]),
         "C12" => c12::replay(&v["case"]),
         "C13" => c13::replay(&v["case"]),
